@@ -113,6 +113,9 @@ def frame(case, shuffle_seed=None):
   df = pd.DataFrame(recs)
   if shuffle_seed is not None:
     df = df.sample(frac=1.0, random_state=shuffle_seed % (2 ** 31)).reset_index(drop=True)
+  if case['seed'] % 4 == 1:
+    # row labels repeat, as after pd.concat of per-period extracts without ignore_index
+    df.index = [i % max(1, len(df) // 3) for i in range(len(df))]
   return df, nm
 
 
@@ -263,7 +266,7 @@ def run(tier):
     ck.tie_broken('correspondence', 'TBRDiagnostics.fit vs model/Screen.v on %d frames' % len(bad), {'case': cases[sorted(bad)[0]]})
   ck.cov['rule'] = ('experiment frames with 1-5 control and 1-4 treatment geos (plus geos of a third group), 20-45 pre-period dates, '
                     'test and optional cooldown periods, planted noisy / constant / anti-correlated geos and spike dates, custom '
-                    'column names and group labels, string or integer geo IDs, plus four frames in which all or all but one geo are constant and smooth 8-10-geo panels with a planted noisy geo and a moderate outlier date (both detectors report in one fit); each frame is fitted as generated and row-shuffled. '
+                    'column names and group labels, string or integer geo IDs, unique or repeating row labels, plus four frames in which all or all but one geo are constant and smooth 8-10-geo panels with a planted noisy geo and a moderate outlier date (both detectors report in one fit); each frame is fitted as generated and row-shuffled. '
                     'non-trivial: something was reported or at least four geos (noisy-geo detection active)')
   ck.cov['distribution'] = dist
   ck.cov['correspondence'] = {'frames_model_vs_impl': len(terms), 'disagreements': len(bad)}
